@@ -20,11 +20,18 @@ import vlib
 PROPERTY = "C01"
 LEAN_MODULES = ["TapkeeVerif.Props.C01"]
 LEAN_EXES = ["model_c01"]
-REQUIRED_THEOREMS = [
-    "TapkeeVerif.C01.prediction_shape",
-    "TapkeeVerif.C01.prediction_errors_documented",
-    "TapkeeVerif.C01.unvalidated_only_throws",
-]
+REQUIRED_THEOREMS = ["TapkeeVerif.C01." + t for t in [
+    "prediction_shape", "prediction_errors_documented", "unvalidated_only_throws", "validated_plain_method_must_succeed",
+    "inb_nth_element", "neighbor_lists_have_length_k", "inb_neighbor_lists", "inb_cover_sets", "inb_cover_sets_all",
+    "inb_hlle_blocks", "inb_ltsa_g", "inb_dense_largest_N", "inb_dm", "inb_landmark_erase", "inb_triangulate",
+    "inb_dense_smallest_cols", "inb_gen_le_cols", "inb_randomized", "inb_spe_ind1", "inb_spe_indices", "inb_tsne_y",
+    "inb_tsne_knn", "foreign_throws_listed", "no_foreign_throw_reachable", "never_exits_unless_alloc_fails",
+    "assert_sites_listed", "largest_strategies_skip_zero", "kSeq_reaches_complete_graph", "findNeighbors_terminates",
+    "perplexity_bisection_bounded", "iteration_counts_bounded", "spe_default_iterations"]]
+# sites whose full statement may currently be refuted: either `<name>` or (`<name>_refuted` and `<name>_partial`)
+SITE_THEOREMS = ["inb_hlle_col", "inb_hlle_eigvec_rightCols", "inb_ltsa_eigvec_rightCols", "inb_pca_rightCols",
+                 "inb_landmark_rightCols", "inb_dense_segment", "inb_gen_segment", "inb_gen_linear_cols", "inb_tsne_posf",
+                 "inb_tsne_exact_error", "inb_ms_rows", "front_end_errors_documented"]
 
 JOBS = 16
 DOCUMENTED = ["wrong_parameter_error", "missed_parameter_error", "multiple_parameter_error",
@@ -167,8 +174,10 @@ def product_cases(r, tier):
     if tier == "quick":
         for i in range(470):
             m = METHODS[i % len(METHODS)]
-            N = r.choice(NS) if r.chance(3, 4) else r.choice([8, 17])
-            c = base_case(r, m, N, r.choice(DS), r.choice(D_CLASSES), r.choice(K_CLASSES), r.choice(DATA))
+            # tiny N (every call must throw) keeps a tenth of the sample; generic data a quarter
+            N = r.choice([1, 2, 3]) if r.chance(1, 10) else r.choice([4, 5, 8, 8, 17, 17, 40])
+            data = r.choice(DATA + ["generic"])
+            c = base_case(r, m, N, r.choice(DS), r.choice(D_CLASSES), r.choice(K_CLASSES), data)
             cases.append(c)
         cases += boundary_cases(r, 110)
         return cases
@@ -558,8 +567,29 @@ def load_documented(ctx):
     ctx.c01_documented = doc
 
 
+def site_status(ctx):
+    """every listed site has its full theorem, or the Lean-checked refutation together with the partial statement"""
+    try:
+        names = {n.split(".")[-1] for n in ctx.theorems_in(LEAN_MODULES[0])}
+    except OSError:
+        return
+    status = {}
+    for sname in SITE_THEOREMS:
+        if sname in names:
+            status[sname] = "full"
+        elif sname + "_refuted" in names and sname + "_partial" in names:
+            status[sname] = "refuted (witness replayed by the sweep) + partial"
+        else:
+            status[sname] = "MISSING"
+            ctx.broken("props:site:" + sname, "Props/C01.lean " + sname,
+                       "neither the full theorem %s nor its refutation + partial form is present" % sname)
+    ctx.extra["index_sites"] = status
+    ctx.extra["open_findings_in_props"] = sorted(k for k, v in status.items() if v.startswith("refuted"))
+
+
 def correspond(ctx):
     load_documented(ctx)
+    site_status(ctx)
     ctx.c01_failures = []
     t0 = time.time()
     a, la, b, lb = build_both(ctx)
